@@ -193,12 +193,12 @@ def main(tier, args):
                                           "ASAN_OPTIONS": "detect_leaks=0:abort_on_error=0:halt_on_error=0",
                                           "UBSAN_OPTIONS": "print_stacktrace=1:halt_on_error=0"})
     res.infos.insert(0, "build+expectation generation %.1fs" % t_build)
-    a3, a4, ml = ("all 256 values", "A40", 300) if thorough else ("the 20-value boundary alphabet A20", "A20", 66)
+    a3, a4, ml = ("all 256 values", "the 64-value alphabet A64 (16 777 216 strings)", 300) if thorough else ("the 20-value boundary alphabet A20", "A20 (160 000 strings)", 66)
     vf.finish(PID, tier, res, t0,
               rule="Engine I exhaustive sweeps on the real code under ASan+UBSan, outputs in new uint8_t[capacity] of exactly the advertised size. "
                    "Encoder inputs (Base64, hex, URL): all byte strings of length 0-2 over 0..255, length 3 over %s, lengths 4-%d x 6 patterns; "
                    "decode(encode(x))==x, length == EncodeLength/DecodeLength/2n(+delimiters), all overloads, capacities {exact, exact-1, 0}, vs RFC 4648/3986 references. "
-                   "Decoder inputs: all strings of length 0-2 over 0..255, length 3 over %s, Base64 length 4 over %s%s, every truncation and every single-byte A20 substitution "
+                   "Decoder inputs: Base64 and URL all strings of length 0-3 over 0..255 (16 843 009), hex all strings of length 0-2 over 0..255 and length 3 over %s, Base64 length 4 over %s%s, every truncation and every single-byte A20 substitution "
                    "of valid encodings; capacities {DecodeLength, -1, 0, max}: strictly valid input -> reference bytes, anything else -> no sanitizer report, result <= capacity. "
                    "Scalable integer: 0, 2^64-1, +-2 around the 9 length boundaries, 2^k-1/2^k/2^k+1 (k=0..63)%s x buffer size 0..11 (dump, parse, truncation); parser on all byte "
                    "strings of length <=2%s and c^k / c^k t for k=0..12. Serializer/Deserializer: every sequence of 0-%d fields over {u8,u16,u32,u64,blob} x endian x 3 value sets x "
@@ -206,7 +206,7 @@ def main(tier, args):
                    "lengths 3-%d x 6 patterns vs bitwise references and python zlib/binascii/RFC 1071. MD5: lengths 0-%d x 2 patterns x {single, every 2-way split, %s3-way grid, "
                    "byte-at-a-time} vs hashlib. AES-128: 11 published known answers, all 128x128 single-bit key/block pairs%s vs a FIPS-197 reference and a pure-python AES, "
                    "invcipher(cipher(x))==x."
-                   % (a3, ml, "all 256 values" if thorough else "A40 (40 values)", a4, ", hex/URL length 4 over A40" if thorough else "",
+                   % (a3, ml, "all 256 values" if thorough else "the 40-value alphabet A40", a4, ", hex/URL length 4 over A40 (2 560 000)" if thorough else "",
                       ", +-20000 around every boundary" if thorough else "", " and 3" if thorough else "", 6 if thorough else 4,
                       2000 if thorough else 300, 300 if thorough else 130, "every 3-way split for L<=130, " if thorough else "",
                       ", bit keys x byte blocks, byte keys x bit blocks, 4096 patterned pairs" if thorough else ""),
